@@ -263,6 +263,76 @@ def body_missing_jacobian(case, ctx):
     ctx.nontrivial(True)
 
 
+# ------------------------------------------------------------------ histories on one likelihood object
+@st.composite
+def history_cases(draw):
+    base = draw(cases())
+    base["x"], base["log10s"], base["z"] = base["x"][:12], base["log10s"][:12], base["z"][:12]
+    p = len(base["theta"])
+    alts = []
+    for _ in range(draw(st.integers(1, 3))):
+        th = list(base["theta"])
+        for j in draw(st.lists(st.integers(0, p - 1), min_size=1, max_size=p, unique=True)):
+            th[j] = draw(st.floats(-3, 3, width=32))
+        alts.append(th)
+    base["alts"] = alts
+    base["ops"] = draw(st.lists(st.tuples(st.sampled_from(["value", "cost", "gradient", "cost_gradient"]), st.integers(0, len(alts)),
+                                          st.sampled_from(["fresh", "shared", "shared"])), min_size=2, max_size=10))
+    return base
+
+
+def float_slopes(cls, y, F, s):
+    z = (y - F) / s
+    if cls == "gauss":
+        return z / s
+    if cls == "cauchy":
+        return 2 * z / (s * (1 + z * z))
+    sc = s * np.sqrt(3) / np.pi
+    return np.tanh((y - F) / sc / 2) / sc
+
+
+def body_history(case, ctx):
+    """every answer of a long-lived likelihood object is the log-density (or its gradient) at the theta passed in that call:
+    compared with an object that has never been used before (whose answers the value / gradient sub-checks tie to the reference)"""
+    model, th0, y, s, _ = build(case)
+    cls = case["cls"]
+    thetas = [th0] + [np.array(t, dtype=float) for t in case["alts"]]
+    like = CLASSES[cls](y.copy(), s.copy(), model, forward_model_jacobian=model.jac)
+    buf = th0.copy()
+    last_shared, switched = None, 0
+    for step, (what, j, how) in enumerate(case["ops"]):
+        th = thetas[j]
+        if how == "shared":
+            buf[:] = th
+            arg = buf
+            switched += last_shared is not None and not np.array_equal(thetas[last_shared], th)
+            last_shared = j
+        else:
+            arg = th.copy()
+        twin = CLASSES[cls](y.copy(), s.copy(), Model(case["model"], case["x"], th.size), forward_model_jacobian=model.jac)
+        F = model(th)
+        where = f"call {step}: {what} at parameter set {j} passed as a {how} array ({cls}, {case['model']} model)"
+        with np.errstate(all="ignore"):
+            if what in ("value", "cost"):
+                got = float(like(arg) if what == "value" else like.cost(arg))
+                want = float(twin(th.copy()) if what == "value" else twin.cost(th.copy()))
+                tol = 1e-12 * (float(np.sum(np.abs(scipy_logpdf(cls, y, F, s)))) + y.size)
+                ctx.ratio("history", abs(got - want), tol)
+                if not abs(got - want) <= tol:
+                    raise Violation(f"history:{what}", f"{where} returned {got!r}; a never-used object gives {want!r}")
+            else:
+                got = np.asarray(like.gradient(arg) if what == "gradient" else like.cost_gradient(arg), dtype=float)
+                want = np.asarray(twin.gradient(th.copy()) if what == "gradient" else twin.cost_gradient(th.copy()), dtype=float)
+                tol = 1e-10 * (np.abs(model.jac(th)).T @ np.abs(float_slopes(cls, y, F, s))) + 1e-290
+                e = float(np.max(np.abs(got - want) / tol)) if got.shape == want.shape else np.inf
+                ctx.ratio("history", e, 1.0)
+                if not e <= 1:
+                    raise Violation(f"history:{what}", f"{where} returned {got.tolist()}; a never-used object gives {want.tolist()}")
+    ctx.nontrivial(switched >= 1)
+    ctx.event(f"shared-switches={min(switched, 3)}")
+    ctx.event(f"cls={cls}")
+
+
 SUBCHECKS = [
     Sub("value", lambda t: cases(), body_value, quick=4000, thorough=150000, shards_quick=8, shards_thorough=16,
         rule="some |z| > 30, or n >= 2 with per-datum scales spread over >= 10x"),
@@ -272,4 +342,6 @@ SUBCHECKS = [
         shards_thorough=8, rule="scale differs from 1 by more than 10x"),
     Sub("missing-jacobian", lambda t: err_cases(), body_missing_jacobian, quick=15, thorough=15,
         rule="every class x data size (finite domain of 15 cases)"),
+    Sub("history", lambda t: history_cases(), body_history, quick=1500, thorough=40000, shards_quick=6, shards_thorough=16,
+        rule="the same caller-owned array re-used in place for >= 2 different parameter vectors on one likelihood object"),
 ]
